@@ -85,9 +85,12 @@ static size_t va_qbytes;
 static int va_on;
 unsigned long vh_alloc_blocks, vh_alloc_checked;
 static unsigned va_slot(void *p) { return (unsigned)(((uintptr_t)p >> 4) * 2654435761u) & (VA_PT - 1); }
-static void va_add(void *p, size_t n)
+/* entries are stored disguised (xor), so that the table itself does not keep a leaked block reachable in LeakSanitizer's eyes */
+#define VA_HIDE(p) ((void *)((uintptr_t)(p) ^ (uintptr_t)0x5a5a5a5a5a5a5a5aULL))
+static void va_add(void *p_, size_t n)
 {
-	unsigned i = va_slot(p), spare = VA_PT;
+	void *p = VA_HIDE(p_);
+	unsigned i = va_slot(p_), spare = VA_PT;
 	for (unsigned k = 0; k < VA_PT && va_pt[i]; k++, i = (i + 1) & (VA_PT - 1)) {
 		if (va_pt[i] == p) { va_sz[i] = (unsigned)n; return; }	/* stale entry: the application released that block with free() itself */
 		if (va_pt[i] == (void *)1 && spare == VA_PT) spare = i;
@@ -95,9 +98,10 @@ static void va_add(void *p, size_t n)
 	if (spare != VA_PT) i = spare;
 	va_pt[i] = p; va_sz[i] = (unsigned)n;
 }
-static int va_del(void *p, size_t *n)
+static int va_del(void *p_, size_t *n)
 {
-	unsigned i = va_slot(p);
+	void *p = VA_HIDE(p_);
+	unsigned i = va_slot(p_);
 	for (unsigned k = 0; k < VA_PT && va_pt[i]; k++, i = (i + 1) & (VA_PT - 1))
 		if (va_pt[i] == p) { va_pt[i] = (void *)1; *n = va_sz[i]; return 1; }
 	return 0;
@@ -119,21 +123,35 @@ void vh_alloc_checkpoint(void)
 	}
 	va_nq = 0; va_qbytes = 0;
 }
+static long va_live;
 static void *va_malloc(size_t n)
 {
 	void *p = malloc(n);
-	if (p) { va_add(p, n); vh_alloc_blocks++; }
+	if (p) { va_add(p, n); vh_alloc_blocks++; va_live++; }
 	return p;
+}
+/* blocks handed out and not yet given back through the installed free function (library memory that the application owns - tokens, JSON
+ * text - has to be released with vh_lib_free for this count to mean anything) */
+long vh_alloc_live(void) { return va_live; }
+void vh_alloc_leak(long before, const char *what)
+{
+	if (va_on && va_live != before) {
+		fprintf(stderr, "\nERROR: HarnessAllocator: blocks-not-returned (%ld block(s) taken from the installed allocator during %s were never given back to it)\n", va_live - before, what);
+		fflush(stderr);
+		abort();
+	}
 }
 static void va_free(void *p)
 {
 	size_t n = 0;
 	if (!p) return;
 	if (!va_del(p, &n)) va_fail("foreign-free", 0, 0);
+	va_live--;
 	memset(p, 0xDD, n);
 	if (va_nq >= VA_QMAX || va_qbytes > ((size_t)256 << 20)) vh_alloc_checkpoint();
 	va_q[va_nq].p = p; va_q[va_nq].n = (unsigned)n; va_nq++; va_qbytes += n;
 }
+void vh_lib_free(void *p) { if (va_on) va_free(p); else free(p); }
 static void va_atexit(void) { if (va_on) vh_alloc_checkpoint(); }
 void vh_alloc_install(void)
 {
